@@ -112,6 +112,66 @@ Proof.
     apply Z.ltb_ge in E. assert (0 < sc_hash_minimal_size) by reflexivity. lia.
 Qed.
 
+Section Rehash.
+  Variable key : Type.
+  Variable hf : key -> Z.
+  Notation slot_of := (slot_of key hf).
+
+  Lemma slot_of_lt n k : 0 < n -> (slot_of n k < Z.to_nat n)%nat.
+  Proof.
+    intros H. unfold HashModel.slot_of. pose proof (Z.mod_pos_bound (u32 (hf k)) n H). lia.
+  Qed.
+
+  (* well-placed: every element sits in the slot its hash value selects *)
+  Definition placed (n : Z) (ss : list (list key)) : Prop :=
+    forall i x, In x (nth i ss []) -> slot_of n x = i.
+
+  Lemma placed_upd n ss i l : placed n ss -> (forall x, In x l -> slot_of n x = i) -> placed n (upd i l ss).
+  Proof.
+    intros PL Hl j x Hx. destruct (Nat.eq_dec i j) as [->|Hne].
+    - destruct (Nat.lt_ge_cases j (length ss)).
+      + rewrite nth_upd_same in Hx by auto. auto.
+      + rewrite nth_overflow in Hx by (rewrite upd_length; lia). destruct Hx.
+    - rewrite nth_upd_other in Hx by auto. apply PL; auto.
+  Qed.
+
+  (* ---------- rehash ---------- *)
+  Lemma rehash_fold ns l acc : 0 < ns -> length acc = Z.to_nat ns -> placed ns acc ->
+    let r := fold_left (rehash_put key hf ns) l acc in
+    length r = Z.to_nat ns /\ placed ns r /\ Permutation (concat r) (l ++ concat acc).
+  Proof.
+    intros Hns. revert acc. induction l as [|k t IH]; intros acc Hlen PL; simpl.
+    - repeat split; auto.
+    - set (acc' := rehash_put key hf ns acc k).
+      assert (Hj : (slot_of ns k < length acc)%nat) by (rewrite Hlen; apply slot_of_lt; auto).
+      assert (Hlen' : length acc' = Z.to_nat ns) by (unfold acc', rehash_put; rewrite upd_length; auto).
+      assert (PL' : placed ns acc').
+      { unfold acc', rehash_put. apply placed_upd; auto. intros x [->|Hx]; auto. }
+      destruct (IH acc' Hlen' PL') as [A [B C]]. repeat split; auto.
+      rewrite C. unfold acc', rehash_put. rewrite concat_upd_perm by auto.
+      rewrite (concat_nth_perm (slot_of ns k) acc Hj).
+      simpl. apply Permutation_sym. apply Permutation_middle.
+  Qed.
+
+  Lemma rehash_ok ns old : 0 < ns ->
+    length (rehash key hf ns old) = Z.to_nat ns /\ placed ns (rehash key hf ns old) /\
+    Permutation (concat (rehash key hf ns old)) (concat old).
+  Proof.
+    intros H. unfold rehash.
+    destruct (rehash_fold ns (concat old) (repeat [] (Z.to_nat ns)) H) as [A [B C]].
+    - apply repeat_length.
+    - intros i x Hx. rewrite nth_repeat_nil in Hx. destruct Hx.
+    - repeat split; auto. rewrite C. rewrite concat_repeat_nil, app_nil_r. reflexivity.
+  Qed.
+
+  (* rehashing alone: same elements, every one in the slot its hash selects *)
+  Theorem rehash_preserves ns old : 0 < ns ->
+    Permutation (concat (rehash key hf ns old)) (concat old) /\
+    length (rehash key hf ns old) = Z.to_nat ns /\
+    forall i x, In x (nth i (rehash key hf ns old) []) -> slot_of ns x = i.
+  Proof. intros H. destruct (rehash_ok ns old H) as [A [B C]]. auto. Qed.
+End Rehash.
+
 Section HashProofs.
   Variable key : Type.
   Variable hf : key -> Z.
@@ -126,6 +186,10 @@ Section HashProofs.
   Notation matches := (matches key eqb).
   Notation nslots := (nslots key).
   Notation elements := (elements key).
+  Notation placed := (placed key hf).
+  Notation slot_of_lt := (slot_of_lt key hf).
+  Notation placed_upd := (placed_upd key hf).
+  Notation rehash_ok := (rehash_ok key hf).
 
   (* no two elements of the list are equal in the user's sense *)
   Definition nodupeq (l : list key) : Prop :=
@@ -176,15 +240,6 @@ Section HashProofs.
   Lemma slot_of_eq n a b : eqb a b = true -> slot_of n a = slot_of n b.
   Proof. intros H. unfold HashModel.slot_of. rewrite (eqb_hf _ _ H). reflexivity. Qed.
 
-  Lemma slot_of_lt n k : 0 < n -> (slot_of n k < Z.to_nat n)%nat.
-  Proof.
-    intros H. unfold HashModel.slot_of. pose proof (Z.mod_pos_bound (u32 (hf k)) n H). lia.
-  Qed.
-
-  (* well-placed: every element sits in the slot its hash value selects *)
-  Definition placed (n : Z) (ss : list (list key)) : Prop :=
-    forall i x, In x (nth i ss []) -> slot_of n x = i.
-
   Record R (h : hash) (s : list key) : Prop := mkR {
     R_perm : Permutation (elements h) s;
     R_cnt : hcount key h = Z.of_nat (length s);
@@ -214,44 +269,6 @@ Section HashProofs.
       apply in_concat_nth in Hc. destruct Hc as [j [Hj Hxj]].
       pose proof (PL _ _ Hxj) as Hs. rewrite (slot_of_eq _ _ _ Hk) in Hs. fold i in Hs. subst j. exact Hxj.
     - rewrite find_none_iff in E. apply find_none_iff. intros x Hx. apply E; auto.
-  Qed.
-
-  Lemma placed_upd n ss i l : placed n ss -> (forall x, In x l -> slot_of n x = i) -> placed n (upd i l ss).
-  Proof.
-    intros PL Hl j x Hx. destruct (Nat.eq_dec i j) as [->|Hne].
-    - destruct (Nat.lt_ge_cases j (length ss)).
-      + rewrite nth_upd_same in Hx by auto. auto.
-      + rewrite nth_overflow in Hx by (rewrite upd_length; lia). destruct Hx.
-    - rewrite nth_upd_other in Hx by auto. apply PL; auto.
-  Qed.
-
-  (* ---------- rehash ---------- *)
-  Lemma rehash_fold ns l acc : 0 < ns -> length acc = Z.to_nat ns -> placed ns acc ->
-    let r := fold_left (rehash_put key hf ns) l acc in
-    length r = Z.to_nat ns /\ placed ns r /\ Permutation (concat r) (l ++ concat acc).
-  Proof.
-    intros Hns. revert acc. induction l as [|k t IH]; intros acc Hlen PL; simpl.
-    - repeat split; auto.
-    - set (acc' := rehash_put key hf ns acc k).
-      assert (Hj : (slot_of ns k < length acc)%nat) by (rewrite Hlen; apply slot_of_lt; auto).
-      assert (Hlen' : length acc' = Z.to_nat ns) by (unfold acc', rehash_put; rewrite upd_length; auto).
-      assert (PL' : placed ns acc').
-      { unfold acc', rehash_put. apply placed_upd; auto. intros x [->|Hx]; auto. }
-      destruct (IH acc' Hlen' PL') as [A [B C]]. repeat split; auto.
-      rewrite C. unfold acc', rehash_put. rewrite concat_upd_perm by auto.
-      rewrite (concat_nth_perm (slot_of ns k) acc Hj).
-      simpl. apply Permutation_sym. apply Permutation_middle.
-  Qed.
-
-  Lemma rehash_ok ns old : 0 < ns ->
-    length (rehash key hf ns old) = Z.to_nat ns /\ placed ns (rehash key hf ns old) /\
-    Permutation (concat (rehash key hf ns old)) (concat old).
-  Proof.
-    intros H. unfold rehash.
-    destruct (rehash_fold ns (concat old) (repeat [] (Z.to_nat ns)) H) as [A [B C]].
-    - apply repeat_length.
-    - intros i x Hx. rewrite nth_repeat_nil in Hx. destruct Hx.
-    - repeat split; auto. rewrite C. rewrite concat_repeat_nil, app_nil_r. reflexivity.
   Qed.
 
   Lemma maybe_resize_R h s : R h s -> R (maybe_resize key hf h) s.
@@ -456,10 +473,4 @@ Section HashProofs.
     rewrite (Permutation_length (R_perm _ _ HR)). apply HR.
   Qed.
 
-  (* rehashing alone: same elements, every one in the slot its hash selects *)
-  Theorem rehash_preserves ns old : 0 < ns ->
-    Permutation (concat (rehash key hf ns old)) (concat old) /\
-    length (rehash key hf ns old) = Z.to_nat ns /\
-    forall i x, In x (nth i (rehash key hf ns old) []) -> slot_of ns x = i.
-  Proof. intros H. destruct (rehash_ok ns old H) as [A [B C]]. auto. Qed.
 End HashProofs.
